@@ -250,6 +250,49 @@ theorem iso_time_general_reformat (l : Text) (nod : Int) (h : parseIsoTimeGenera
         simp
       · cases h
 
+/-- consequence: a text accepted by LocalTimePattern.general_iso consists of digits and `:` only — in particular it
+    contains no NUL character and nothing after the seconds (section 7 row 18 cannot occur in the repaired model) -/
+theorem iso_time_general_parsed_chars (l : Text) (nod : Int) (h : parseIsoTimeGeneral l = .ok (some nod)) :
+    ∀ c ∈ l, isDigit c = true ∨ c = ':' := by
+  have hv := C08aux_time_valid l nod h
+  have e := iso_time_general_reformat l nod h
+  rw [← e]
+  unfold fmtIsoTimeGeneral
+  rw [fmtHms_eq nod hv.1 hv.2]
+  rw [format2_eq _ (by omega) (by omega), format2_eq _ (by omega) (by omega), format2_eq _ (by omega) (by omega)]
+  intro c hc
+  simp only [List.mem_append, List.mem_singleton] at hc
+  rcases hc with (((hc | hc) | hc) | hc) | hc
+  · left; exact padN_isDigit _ _ c hc
+  · right; exact hc
+  · left; exact padN_isDigit _ _ c hc
+  · right; exact hc
+  · left; exact padN_isDigit _ _ c hc
+where
+  C08aux_time_valid (l : Text) (nod : Int) (h : parseIsoTimeGeneral l = .ok (some nod)) :
+      0 ≤ nod ∧ nod < 86400000000000 := by
+    have e := iso_time_general_reformat l nod h
+    unfold parseIsoTimeGeneral parseWhole at h
+    split at h
+    · cases h
+    · unfold parseTimePartial at h
+      cases ht : timeFields 23 .none l with
+      | none => rw [ht] at h; cases h
+      | some p =>
+        obtain ⟨⟨hh, m, s, n⟩, rest⟩ := p
+        rw [ht] at h
+        dsimp only at h
+        simp only [timeFields, fracPart, Option.bind_eq_bind, Option.bind_eq_some_iff, Option.pure_def, Option.some.injEq,
+          Prod.mk.injEq, Prod.exists] at ht
+        obtain ⟨h', l1, h1, l2, h2, m', l3, h3, l4, h4, s', l5, h5, n', l6, ⟨rfl, rfl⟩, ⟨⟨rfl, rfl, rfl, rfl⟩, rfl⟩⟩ := ht
+        have r1 := parseField_bounds _ _ _ _ _ _ _ h1
+        have r3 := parseField_bounds _ _ _ _ _ _ _ h3
+        have r5 := parseField_bounds _ _ _ _ _ _ _ h5
+        split at h
+        · injection h with h; injection h with h
+          rw [← h]; unfold ltFromHmsn NPH NPMin NPS; omega
+        · cases h
+
 /-! hypotheses are satisfiable on non-trivial values -/
 example : parseIsoTime (fmtIsoTime 45296123000000) = .ok (some 45296123000000) :=
   iso_time_roundtrip _ (by decide) (by decide)
